@@ -163,6 +163,10 @@ func errKind(msg string) string {
 		return "expectedkey"
 	case strings.HasPrefix(msg, "expected a colon"):
 		return "colon"
+	case strings.HasPrefix(msg, "expected a value"):
+		return "expectedvalue"
+	case strings.HasPrefix(msg, "expected a string before"):
+		return "plusnostring"
 	case strings.HasPrefix(msg, "invalid number"):
 		return "number"
 	case strings.HasPrefix(msg, "invalid JSON character"):
